@@ -1,7 +1,7 @@
 import os
 import core
 
-STREAMS = ["c02", "c02proc", "c01l3"]
+STREAMS = ["c02", "c02proc", "c01l3", "c12"]
 NEEDS_BINARY = True
 HARNESS_ARGS = ("-rdpgw", os.path.join(core.BUILD, "rdpgw"))
 RULE = ("real security.CheckPAACookie with real go-jose against a scriptable OpenID provider: (a) 26 token variants (each claim "
@@ -19,7 +19,7 @@ ASSUMPTIONS = ["unforgeability of HMAC-SHA256 (Dolev-Yao: symbolic terms)",
 
 
 def nontrivial(c):
-    if c.kind in ("process", "process16", "wiring"):
+    if c.kind in ("process", "process16", "wiring", "download"):
         return True
     try:
         return bytes.fromhex(c.fields[3] if c.fields[3] != "-" else "").count(b".") == 2
